@@ -52,6 +52,40 @@ static void scenario() {
         vf_window(1); a.execute([&] { tbb::task_group outer; for (int i = 0; i < 2; i++) outer.run([&] { if (in_iso && vf_self() == iso_thread) vf_fail("a thread waiting inside isolate executed a task spawned outside the isolation scope"); vf_point(); });
             tbb::this_task_arena::isolate([&] { iso_thread = vf_self(); in_iso = 1; tbb::task_group in; in.run([&] { vf_point(); }); in.run([&] { vf_point(); }); in.wait(); in_iso = 0; });
             outer.wait(); }); vf_window(0); }
+    else if (streq(k, "isolate_proxy")) {
+        // Isolation must also hold for work that travels as a task PROXY (affinity): a worker B runs a non-isolated parallel_for with
+        // static_partitioner, which leaves proxies for the other slots in B's pool; meanwhile the main thread waits INSIDE an isolate scope
+        // with nothing to do (its second inner task was stolen by worker A, who holds it) and walks the stealing loop.
+        tbb::global_control gc(tbb::global_control::max_allowed_parallelism, 3); tbb::task_arena a(3); int warm = 0;
+        a.execute([&] { tbb::task_group tg; for (int i = 0; i < 4; i++) tg.run([&] { warm++; for (int j = 0; j < 20; j++) vf_yield(); }); tg.wait(); });
+        static int in_iso, iso_thread, x2_done, outer_started, outer_done, x1_thread; in_iso = 0; iso_thread = -1; x2_done = outer_started = outer_done = 0; x1_thread = -1;
+        vf_window(1); a.execute([&] { tbb::task_group outer;
+            outer.run([&] { tbb::parallel_for(tbb::blocked_range<int>(0, 3, 1), [&](const tbb::blocked_range<int>&) {
+                    if (in_iso && vf_self() == iso_thread) vf_fail("a thread waiting inside isolate executed a chunk of a parallel_for that was started outside the isolation scope (it arrived as an affinity proxy)");
+                    outer_started++; for (int j = 0; j < 400 && !x2_done; j++) vf_yield(); for (int j = 0; j < 60; j++) vf_yield(); outer_done++; }, tbb::static_partitioner()); });
+            tbb::this_task_arena::isolate([&] { iso_thread = vf_self(); in_iso = 1; tbb::task_group in;
+                in.run([&] { x1_thread = vf_self(); for (int j = 0; j < 3000 && outer_done < 3; j++) vf_yield(); });                       // X1: held by whoever takes it until the outer loop is over
+                in.run([&] { for (int j = 0; j < 600 && (x1_thread < 0 || !outer_started); j++) vf_yield(); x2_done = 1; });          // X2: the scope owner pops it first and waits for X1 and the outer loop to be taken by others
+                in.wait(); in_iso = 0; });
+            outer.wait(); }); vf_window(0);
+        vf_outcome("x1 on T%d outer_done=%d", x1_thread, outer_done); }
+    else if (streq(k, "priority")) {
+        // One worker (max_allowed_parallelism 2), a normal-priority arena in which the worker holds stolen loop chunks in its own pool, and a
+        // high-priority arena that gets demand (enqueue) from a second application thread: the higher-priority demand must be satisfied
+        // first, so the worker may finish what it is doing but must not go on through the low-priority chunks in its pool.
+        tbb::global_control gc(tbb::global_control::max_allowed_parallelism, 2);
+        tbb::task_arena low(2, 1, tbb::task_arena::priority::low), high(2, 1, tbb::task_arena::priority::high); low.initialize(); high.initialize();
+        static int worker_low_bodies, high_requested, after_request, high_ran, low_done; worker_low_bodies = high_requested = after_request = high_ran = low_done = 0;
+        auto ids = gated(1, [&](int) { is_ext[vf_self()] = true; (void)tbb::this_task_arena::max_concurrency(); }, [&](int) {
+            for (int j = 0; j < 4000 && !worker_low_bodies && !low_done; j++) vf_yield();
+            high.enqueue([&] { high_ran = 1; }); high_requested = 1;
+            for (int j = 0; j < 6000 && !high_ran; j++) vf_yield();
+            if (!high_ran) vf_fail("work enqueued into the higher-priority arena did not run although a worker exists (it executed %d chunks of the lower-priority arena after the request)", after_request); });
+        vf_window(1); vf_gate_open();
+        low.execute([&] { tbb::parallel_for(tbb::blocked_range<int>(0, 16, 1), [&](const tbb::blocked_range<int>&) { bool w = !is_ext[vf_self()];
+                if (w) { worker_low_bodies++; if (high_requested && !high_ran && ++after_request >= 4) vf_fail("the worker went on executing chunks of the lower-priority arena (%d so far) after a higher-priority arena had requested it", after_request); }
+                for (int j = 0; j < 6; j++) vf_yield(); }, tbb::simple_partitioner()); low_done = 1; });
+        join_all(ids); vf_window(0); vf_outcome("worker_low=%d after_request=%d", worker_low_bodies, after_request); }
     else if (streq(k, "gc")) { int workers_live = 0;
         tbb::global_control gc(tbb::global_control::max_allowed_parallelism, L); tbb::task_arena a(3); a.initialize();
         vf_window(1); a.execute([&] { tbb::parallel_for(0, 4, [&](int) { bool w = !is_ext[vf_self()]; if (w) { if (++workers_live > L - 1) vf_fail("%d workers execute user work while max_allowed_parallelism is %d", workers_live, L); } vf_point(); vf_point(); if (w) --workers_live; }, tbb::simple_partitioner()); }); vf_window(0); }
